@@ -7,8 +7,9 @@ A == "127.0.0.1"
 B == "127.0.0.2"
 C == "127.0.0.3"
 D == "127.0.0.4"
+E == "127.0.0.5"
 Cfg == [BaseCfg EXCEPT !.max_joins = <<1>>]
-Pre == Reg(A, "alice", "u1") \o Reg(B, "bob", "u2") \o Reg(C, "carol", "u3") \o Reg(D, "dave", "u4")
+Pre == Reg(A, "alice", "u1") \o Reg(B, "bob", "u2") \o Reg(C, "carol", "u3") \o Reg(D, "dave", "u4") \o Reg(E, "zoë", "u5")
        \o << St(A, "JOIN", <<<<"#one">>>>), St(B, "JOIN", <<<<"#one">>>>),
              St(A, "MODE", <<<<"#one">>, <<"+i">>>>), St(A, "MODE", <<<<"#one">>, <<"+l", "2">>>>) >>
 M(g1) == St(A, "MODE", <<<<"#one">>, g1>>)
@@ -17,13 +18,15 @@ Acts == { St(A, "INVITE", <<<<"dave">>, <<"#one">>>>), St(A, "INVITE", <<<<"caro
           St(D, "JOIN", <<<<"#two">>>>), St(D, "PART", <<<<"#two">>>>), St(D, "PART", <<<<"#one">>>>), St(D, "JOIN", <<<<"#two", "#one">>>>),
           St(B, "PART", <<<<"#one">>>>), St(A, "KICK", <<<<"#one">>, <<"bob">>>>), St(A, "KICK", <<<<"#one">>, <<"dave">>>>),
           M(<<"-l">>), M(<<"+l", "3">>), M(<<"+k", "key">>), M(<<"-k", "key">>), M(<<"+b", "dave">>), M(<<"-b", "dave">>), M(<<"-i">>),
-          M(<<"+I", "*!*@127.0.0.4">>) }
+          M(<<"+I", "*!*@127.0.0.4">>),
+          (* one character under '?', however many bytes it has *)
+          M(<<"+b", "zo?!*@*">>), M(<<"+e", "z??">>), M(<<"+I", "zo?">>), M(<<"+b", "zo??!*@*">>), St(E, "JOIN", <<<<"#one">>>>), St(E, "PART", <<<<"#one">>>>) }
 Enabled(st) == st.c \in DOMAIN S.conns
 Steps == {st \in Acts : Enabled(st)}
 Init == InitWith(Cfg, Pre)
 Next == NextWith(Steps)
 Spec == Init /\ [][Next]_vars
-Depth == 5
+Depth == 4
 DepthT == 6
 Constraint == Len(hist) <= Len(Pre) + Depth
 ASSUME PrintT(<<"CFG", ToJson(CfgJson(Cfg))>>)
